@@ -283,7 +283,7 @@ class WireEngine(BaseEngine):
 
     def tiers(self, prop):
         return {'C04': {'quick': 300_000, 'thorough': 15_000_000},
-                'C05': {'quick': 250_000, 'thorough': 12_000_000},
+                'C05': {'quick': 300_000, 'thorough': 12_000_000},
                 'C06': {'quick': 400_000, 'thorough': 20_000_000}}[prop]
 
     # ---------------- generation
@@ -292,6 +292,14 @@ class WireEngine(BaseEngine):
         if prop == 'C06':
             return self._gen_c06(rng)
         wire, cfg, fired = gen_world(rng)
+        if prop == 'C05' and idx % 10 == 9:
+            # mode B (threads): the ParserQueue anchor, executed by the ports_conc machinery
+            from .ports_conc import ENGINE as PC
+            plan = PC.gen_raw(prop, seed, idx, wire[:60], rng)
+            plan['mode'] = 'pq_threads'
+            plan['cfg'] = cfg
+            plan['faults_fired'] = dict(fired)
+            return plan
         if prop == 'C04':
             mode = weighted(rng, (('parser', 6), ('parse_all', 1), ('port_old', 1), ('port_new', 1), ('pq', 1)))
         else:
@@ -354,6 +362,13 @@ class WireEngine(BaseEngine):
 
     # ---------------- execution
     def run(self, prop, plan, keep_log=False):
+        if plan.get('mode') == 'pq_threads':
+            from .ports_conc import ENGINE as PC
+            out = PC.run(prop, plan, keep_log=keep_log)
+            for k, v in plan.get('faults_fired', {}).items():
+                out['stats']['fault:' + k] += v
+            out['stats']['mode_B_runs'] += 1
+            return out
         log = Log(keep_log)
         stats = collections.Counter()
         cov = set()
@@ -682,8 +697,17 @@ class WireEngine(BaseEngine):
         if not prefix and not by_msg:
             stats['clean_concat_runs'] += 1
 
+    def abort_cleanup(self):
+        from .ports_conc import ENGINE as PC
+        PC.abort_cleanup()
+
     # ---------------- shrinking
     def shrink(self, prop, plan):
+        if plan.get('mode') == 'pq_threads':
+            from .ports_conc import ENGINE as PC
+            yield from PC.shrink(prop, plan)
+            yield from shrink_list_at(plan, ('wire',))
+            return
         if prop == 'C06':
             yield from shrink_list_at(plan, ('msgs',), min_len=1)   # rt indices are re-validated at run time
             yield from shrink_list_at(plan, ('rt',))
@@ -741,6 +765,7 @@ class WireEngine(BaseEngine):
                     'of': len(PREFIX_CLASSES) * len(model.ALL_TYPES),
                     'prefix_endstate_x_type_cells_hit': len([c for c in cov if c.startswith('endstate:')]),
                     'endstate_of': len(ABS_STATES) * len(model.ALL_TYPES)}
+        cov = {c for c in cov if c.count('|') == 2 and not c.startswith('pq_raw')}
         return {'abstract_state_x_input_class_x_chunk_start_cells_hit': len(cov),
                 'of': len(ABS_STATES) * len(BYTE_CLASSES) * 2,
                 'missing': sorted(f'{s}|{c}|{f}' for s in ABS_STATES for c in BYTE_CLASSES for f in (0, 1)
